@@ -196,9 +196,20 @@ func GenCase(r *core.Rand, pr Profile) []string {
 		mode = r.Pick("seq", "seq", "pipe", "pipe", "dribble")
 	}
 	if !tunnel {
-		ops = append(ops, "conn mode="+mode+" listener=plain shutdown=0")
+		listener, rt := "plain", ""
+		switch r.Intn(10) {
+		case 0:
+			listener = "shaped"
+		case 1, 2:
+			if pr.Tunnels { // transparent TLS listener: decrypted from the first byte
+				listener = "tls"
+			}
+		case 3:
+			rt = " rt=clone" // a RoundTripper wrapper that sends a clone of the request
+		}
+		ops = append(ops, "conn mode="+mode+" listener="+listener+" shutdown=0"+rt)
 		for i := 0; i < n; i++ {
-			ops = append(ops, genX(r, pr, false, mode != "pipe" || i == n-1))
+			ops = append(ops, genX(r, pr, listener == "tls", mode != "pipe" || i == n-1))
 		}
 		ops = append(ops, "end")
 		return ops
@@ -216,14 +227,14 @@ func GenCase(r *core.Rand, pr Profile) []string {
 			ops = append(ops, genX(r, pr, false, true))
 		}
 	case 1: // MITM configured, tunnel carries plain HTTP
-		ops = append(ops, "conn mode=seq listener=mitm shutdown=0")
+		ops = append(ops, "conn mode=seq listener="+r.Pick("mitm", "mitm", "shapedmitm")+" shutdown=0")
 		rq, rs := genMods(r, pr)
 		ops = append(ops, fmt.Sprintf("cmitm tls=0 rq=%s rs=%s", rq, rs))
 		for i := 0; i < n; i++ {
 			ops = append(ops, genX(r, pr, false, true))
 		}
 	default: // MITM with TLS inside
-		ops = append(ops, "conn mode=seq listener=mitm shutdown=0")
+		ops = append(ops, "conn mode=seq listener="+r.Pick("mitm", "mitm", "shapedmitm")+" shutdown=0")
 		pre := 0
 		if r.Chance(1, 4) {
 			pre = 1
